@@ -28,6 +28,7 @@ type model struct {
 	req     bool // RequestHeader (else ResponseHeader)
 	norm    bool // name normalisation enabled
 	noDefCT bool // SetNoDefaultContentType(true)
+	status  int  // response status code set by SetStatusCode / read from the wire (0 = default 200)
 
 	fields  []field           // ordinary fields in insertion order
 	single  map[string]string // special single-valued names; "" == absent
@@ -40,7 +41,7 @@ func newModel(req, norm, noDefCT bool) *model {
 }
 
 func (m *model) clone() *model {
-	c := &model{req: m.req, norm: m.norm, noDefCT: m.noDefCT, single: map[string]string{}}
+	c := &model{req: m.req, norm: m.norm, noDefCT: m.noDefCT, status: m.status, single: map[string]string{}}
 	c.fields = append([]field(nil), m.fields...)
 	for k, v := range m.single {
 		c.single[k] = v
@@ -220,6 +221,18 @@ func (m *model) set(name, val string, add bool) {
 		}
 		m.fields = append(m.fields, field{k, v})
 	}
+}
+
+// setCookie is RequestHeader.SetCookie: replaces the value of the first cookie
+// with that name, else appends.
+func (m *model) setCookie(k, v string) {
+	for i, p := range m.cookies {
+		if strings.HasPrefix(p, k+"=") {
+			m.cookies[i] = k + "=" + v
+			return
+		}
+	}
+	m.cookies = append(m.cookies, k+"="+v)
 }
 
 func (m *model) del(name string) {
